@@ -98,6 +98,29 @@ pub fn roundtrip(ctx: &mut Ctx, m: &LMsg, rng: &mut Rng) -> Option<Vec<u8>> {
             }
         }
     }
+    // the same bytes through a validating decoder under the message's own key (when it carries an
+    // integrity attribute or FINGERPRINT): the encoder's output must validate and decode to the same
+    // message in that configuration too (seeded change C01-A7: input text of a tail that ends past
+    // byte 65,535 of the message)
+    let has_tail = m.attrs.iter().any(|a| a.is_tail());
+    if has_tail {
+        let key = m.key.as_ref().and_then(|k| bridge::lib_key(k).ok());
+        let dec = decoder(Some(if key.is_some() { 3 } else { 2 }), key.as_ref());
+        match decode(&dec, bytes) {
+            Err(p) => report_panic(ctx, "decode-validating", &p, witness(m, Some(bytes))),
+            Ok(Err(e)) => ctx.violation(
+                &format!("validating-decode-failed:{}", if size > 65_000 { "near-64k" } else { "ordinary-size" }),
+                format!("decoding the encoder's own output with validation under the key it was made with failed: {}", e),
+                witness(m, Some(bytes)),
+            ),
+            Ok(Ok((got, _))) => {
+                ctx.count("roundtrip.validated");
+                if !compare_decoded(m, bytes, &got, false).is_empty() {
+                    ctx.violation("validating-roundtrip-differs", "message decoded with validation differs".into(), witness(m, Some(bytes)));
+                }
+            }
+        }
+    }
     Some(bytes.to_vec())
 }
 
@@ -228,6 +251,17 @@ pub fn run(ctx: &mut Ctx) {
             ctx.sample(J::obj().set("attributes", J::u(m.attrs.len())).set("kinds", J::arr(kinds.iter().map(|k| J::u(*k)))));
         }
         ctx.eval(b.map(|b| fnv64(&b)));
+    });
+
+    // (e) near-maximum messages with an integrity / FINGERPRINT tail (attribute bytes 65,400..65,532):
+    // the tail ends in the last bytes a 16-bit length can describe
+    let n = ctx.n(96, 4_000);
+    ctx.cases("near-limit-tails", n, |ctx, case, rng| {
+        let total = 65_532 - 4 * ((case % 12) as usize) - if case % 24 >= 12 { 80 } else { 0 };
+        let m = super::c14::assemble(rng, total, true);
+        ctx.count("near-limit-tails.messages");
+        let b = roundtrip(ctx, &m, rng);
+        ctx.eval(b.map(|b| fnv64(&b[..64]) ^ total as u64));
     });
 
     // (d) large values: blobs up to 60 KiB (sizes near the 16-bit limit are C14's business)
